@@ -528,6 +528,18 @@ impl JoinPlanner {
             return ir;
         }
 
+        // Columns are located by name when the join tree is rebuilt. An atom that
+        // repeats a variable (ea(X, X)) yields a scan with two columns of the same
+        // name, which cannot be re-ordered that way: leave such plans alone.
+        let repeats_a_column = graph.nodes.iter().any(|n| {
+            let schema = n.ir_node.output_schema();
+            let distinct: HashSet<&String> = schema.iter().collect();
+            distinct.len() != schema.len()
+        });
+        if repeats_a_column {
+            return ir;
+        }
+
         // Extract head variables from the top-level operation above the joins.
         // These are the variables that survive to the final result, allowing
         // compute_tree_width to account for early projection.
